@@ -49,7 +49,7 @@ def miri_prepare():
     global _miri_ready
     if _miri_ready:
         return
-    cmd, env = miri_cmd(["c16-alloc", "1"])
+    cmd, env = miri_cmd(["ping"])
     rc, out, err = run(cmd, env=env, timeout=1800)
     if rc != 0 or "DONE" not in out:
         raise Inconclusive("miri cannot run the harness: rc=%s\n%s" % (rc, err[-2000:]))
